@@ -1,6 +1,8 @@
 /-
-Proofs/RootFile — root header codec (both layouts, both endiannesses, both heuristics) and the
-FileDataID delta codec.
+Proofs/RootFile — root header codec (both layouts, both endiannesses, both heuristics), the
+FileDataID delta codec, the block codec of every version (V1 interleaved, V2/V3 and V4 separated
+arrays), the block loop, and the whole-file statement parse (build blocks) = the inserted blocks in
+builder order, with the lookups expressed over the inserted records.
 -/
 import Cascette.Model.RootFile
 namespace Cascette.Proofs.RootFile
@@ -107,5 +109,510 @@ theorem delta_roundtrip (ids : List Nat) (h : ∀ x ∈ ids, x < M32) :
     simp only [encodeDeltas, decodeDeltas, decodeDeltas.go]
     have h0 : (0 + f % M32) % M32 = f := by unfold M32 at *; omega
     rw [h0, delta_go rest f hf (fun x hx => h x (List.mem_cons_of_mem _ hx))]
+
+/-! ## whole file: `RootBuilder::build` → `RootFile::parse` → `resolve_by_id` / `resolve_by_hash` -/
+
+theorem v4_content (c : Nat) (h : c < 1099511627776) :
+    (c % 4294967296) ||| ((c / 4294967296 % 256) <<< 32) = c := by
+  have := Nat.shiftLeft_add_eq_or_of_lt (b := c % 4294967296) (i := 32) (by omega) (c / 4294967296 % 256)
+  rw [Nat.or_comm, ← this, Nat.shiftLeft_eq]
+  omega
+
+theorem rd32_le32 (n : Nat) (rest : Bytes) (h : n < 4294967296) : rd32 true (le32 n ++ rest) = some (n, rest) := by
+  have := rd32_w32 true n rest h
+  simpa [w32] using this
+
+theorem rd64_le64 (n : Nat) (rest : Bytes) (h : n < 18446744073709551616) :
+    rd64le (le64 n ++ rest) = some (n, rest) := by
+  unfold rd64le le64
+  rw [List.append_assoc, rd32_le32 _ _ (by omega)]
+  simp only
+  rw [rd32_le32 _ _ (by omega)]
+  simp only [Option.some.injEq, Prod.mk.injEq, and_true]
+  omega
+
+theorem takeN_append (a rest : Bytes) : takeN a.length (a ++ rest) = some (a, rest) := by
+  unfold takeN
+  simp
+
+/-- reading back `n` items written one after the other -/
+theorem readMany_flatMap {α β : Type} (rd : Bytes → Option (β × Bytes)) (wr : α → Bytes) (f : α → β) :
+    ∀ (as : List α), (∀ a ∈ as, ∀ rest, rd (wr a ++ rest) = some (f a, rest)) → ∀ rest,
+    readMany rd as.length (as.flatMap wr ++ rest) = some (as.map f, rest) := by
+  intro as
+  induction as with
+  | nil => intro _ rest; rfl
+  | cons a t ih =>
+    intro h rest
+    simp only [List.length_cons, List.flatMap_cons, List.append_assoc, readMany]
+    rw [h a (List.mem_cons_self ..)]
+    simp only
+    rw [ih (fun x hx => h x (List.mem_cons_of_mem _ hx))]
+    rfl
+
+theorem M32_pos : 0 < M32 := by unfold M32; omega
+
+theorem encodeDeltas_go_length (l : List Nat) : ∀ p, (encodeDeltas.go p l).length = l.length := by
+  induction l with
+  | nil => intro p; rfl
+  | cons a t ih => intro p; simp [encodeDeltas.go, ih]
+
+theorem encodeDeltas_length (l : List Nat) : (encodeDeltas l).length = l.length := by
+  cases l with
+  | nil => rfl
+  | cons a t => simp [encodeDeltas, encodeDeltas_go_length]
+
+theorem encodeDeltas_go_lt (l : List Nat) : ∀ p, ∀ d ∈ encodeDeltas.go p l, d < M32 := by
+  induction l with
+  | nil => intro p d hd; cases hd
+  | cons a t ih =>
+    intro p d hd
+    simp only [encodeDeltas.go, List.mem_cons] at hd
+    rcases hd with hd | hd
+    · rw [hd]; exact Nat.mod_lt _ M32_pos
+    · exact ih _ d hd
+
+theorem encodeDeltas_lt (l : List Nat) : ∀ d ∈ encodeDeltas l, d < M32 := by
+  cases l with
+  | nil => intro d hd; cases hd
+  | cons a t =>
+    intro d hd
+    simp only [encodeDeltas, List.mem_cons] at hd
+    rcases hd with hd | hd
+    · rw [hd]; exact Nat.mod_lt _ M32_pos
+    · exact encodeDeltas_go_lt _ _ d hd
+
+theorem mkRecs_some (recs : List Rec) (h : ∀ r ∈ recs, r.nameHash.isSome = true) :
+    mkRecs (recs.map (·.fdid)) (recs.map (·.ckey)) (recs.map fun r => some (r.nameHash.getD 0)) = recs := by
+  induction recs with
+  | nil => rfl
+  | cons r t ih =>
+    simp only [List.map_cons, mkRecs]
+    rw [ih (fun x hx => h x (List.mem_cons_of_mem _ hx))]
+    have := h r (List.mem_cons_self ..)
+    cases r with
+    | mk f c nh =>
+      cases nh with
+      | none => cases this
+      | some v => rfl
+
+theorem mkRecs_none (recs : List Rec) (h : ∀ r ∈ recs, r.nameHash = none) :
+    mkRecs (recs.map (·.fdid)) (recs.map (·.ckey)) (List.replicate recs.length none) = recs := by
+  induction recs with
+  | nil => rfl
+  | cons r t ih =>
+    simp only [List.map_cons, List.length_cons, List.replicate_succ, mkRecs]
+    rw [ih (fun x hx => h x (List.mem_cons_of_mem _ hx))]
+    have := h r (List.mem_cons_self ..)
+    cases r with
+    | mk f c nh => simp only at this; subst this; rfl
+
+
+/-- what the property assumes of one (locale, content) block handed to the builder -/
+structure GoodBlock (v : Version) (l c : Nat) (recs : List Rec) : Prop where
+  n_pos : 0 < recs.length
+  n_le : recs.length ≤ 1000000
+  loc : l < 4294967296
+  content : c < (if v = .v4 then 1099511627776 else 4294967296)
+  fdid : ∀ r ∈ recs, r.fdid < M32
+  ckey : ∀ r ∈ recs, r.ckey.length = 16
+  named : ∀ r ∈ recs, r.nameHash.isSome = (v == .v1 || hasNames c)
+  hash : ∀ r ∈ recs, r.nameHash.getD 0 < 18446744073709551616
+
+def mkBlock (l c : Nat) (recs : List Rec) : Block := { numRecords := recs.length, locale := l, content := c, recs := recs }
+
+theorem deltas_read (recs : List Rec) (rest : Bytes) :
+    readMany (rd32 true) recs.length ((encodeDeltas (recs.map (·.fdid))).flatMap le32 ++ rest)
+      = some (encodeDeltas (recs.map (·.fdid)), rest) := by
+  have h := readMany_flatMap (rd32 true) le32 id (encodeDeltas (recs.map (·.fdid)))
+    (fun a ha rest => rd32_le32 a rest (by have := encodeDeltas_lt _ a ha; unfold M32 at this; exact this)) rest
+  rw [encodeDeltas_length, List.length_map, List.map_id] at h
+  exact h
+
+theorem ckeys_read (recs : List Rec) (hk : ∀ r ∈ recs, r.ckey.length = 16) (rest : Bytes) :
+    readMany (takeN 16) recs.length (recs.flatMap (·.ckey) ++ rest) = some (recs.map (·.ckey), rest) :=
+  readMany_flatMap (takeN 16) (·.ckey) (·.ckey) recs
+    (fun a ha rest => by have := takeN_append a.ckey rest; rw [hk a ha] at this; exact this) rest
+
+theorem hashes_read (recs : List Rec) (hh : ∀ r ∈ recs, r.nameHash.getD 0 < 18446744073709551616) (rest : Bytes) :
+    readMany rd64le recs.length ((recs.flatMap fun r => le64 (r.nameHash.getD 0)) ++ rest)
+      = some (recs.map (fun r => r.nameHash.getD 0), rest) :=
+  readMany_flatMap rd64le (fun r => le64 (r.nameHash.getD 0)) (fun r => r.nameHash.getD 0) recs
+    (fun a ha rest => rd64_le64 _ rest (hh a ha)) rest
+
+theorem separated_roundtrip (l c : Nat) (recs : List Rec) (rest : Bytes)
+    (hf : ∀ r ∈ recs, r.fdid < M32) (hk : ∀ r ∈ recs, r.ckey.length = 16)
+    (hn : ∀ r ∈ recs, r.nameHash.isSome = hasNames c)
+    (hh : ∀ r ∈ recs, r.nameHash.getD 0 < 18446744073709551616) :
+    parseSeparated recs.length l c
+      ((encodeDeltas (recs.map (·.fdid))).flatMap le32 ++ (recs.flatMap (·.ckey) ++
+        ((if hasNames c then recs.flatMap fun r => le64 (r.nameHash.getD 0) else []) ++ rest)))
+      = some (mkBlock l c recs, rest) := by
+  unfold parseSeparated
+  rw [deltas_read]
+  simp only
+  rw [ckeys_read recs hk]
+  simp only
+  have hdr : decodeDeltas (encodeDeltas (recs.map (·.fdid))) = recs.map (·.fdid) :=
+    delta_roundtrip _ (by intro x hx; obtain ⟨r, hr, rfl⟩ := List.mem_map.1 hx; exact hf r hr)
+  by_cases hc : hasNames c = true
+  · simp only [hc, ↓reduceIte]
+    rw [hashes_read recs hh]
+    simp only [List.map_map]
+    rw [hdr]
+    have := mkRecs_some recs (fun r hr => by rw [hn r hr, hc])
+    simp only [Function.comp_def]
+    rw [this]; rfl
+  · have hc' : hasNames c = false := by simpa using hc
+    simp only [hc', Bool.false_eq_true, ↓reduceIte, List.nil_append]
+    rw [hdr]
+    have := mkRecs_none recs (fun r hr => by
+      have := hn r hr
+      rw [hc'] at this
+      cases h : r.nameHash with
+      | none => rfl
+      | some v => rw [h] at this; cases this)
+    rw [this]; rfl
+
+
+theorem v1pairs_read (recs : List Rec) (hk : ∀ r ∈ recs, r.ckey.length = 16)
+    (hh : ∀ r ∈ recs, r.nameHash.getD 0 < 18446744073709551616) (rest : Bytes) :
+    readMany rdCkHash recs.length
+      ((recs.flatMap fun r => r.ckey ++ le64 (r.nameHash.getD 0)) ++ rest)
+      = some (recs.map (fun r => (r.ckey, r.nameHash.getD 0)), rest) :=
+  readMany_flatMap _ (fun r => r.ckey ++ le64 (r.nameHash.getD 0)) (fun r => (r.ckey, r.nameHash.getD 0)) recs
+    (fun a ha rest => by
+      have h1 := takeN_append a.ckey (le64 (a.nameHash.getD 0) ++ rest)
+      rw [hk a ha] at h1
+      simp only [rdCkHash, List.append_assoc, h1, rd64_le64 _ rest (hh a ha)]) rest
+
+theorem block_roundtrip (v : Version) (l c : Nat) (recs : List Rec) (rest : Bytes) (g : GoodBlock v l c recs) :
+    Block.parse v (Block.write v (mkBlock l c recs) ++ rest) = some (mkBlock l c recs, rest) := by
+  obtain ⟨hpos, hle, hl, hc, hf, hk, hn, hh⟩ := g
+  have hn0 : ¬ recs.length = 0 := by omega
+  have hgt : ¬ recs.length > 1000000 := by omega
+  have hlen : recs.length < 4294967296 := by omega
+  cases v with
+  | v1 =>
+    simp only [reduceCtorEq, ↓reduceIte] at hc
+    have hcm : c % M32 = c := Nat.mod_eq_of_lt (by unfold M32; exact hc)
+    simp only [Block.write, Block.parse, mkBlock, hn0, ↓reduceIte, List.append_assoc, hcm,
+      rd32_le32 _ _ hlen, rd32_le32 _ _ hc, rd32_le32 _ _ hl, hgt, false_or, deltas_read]
+    have hdr : decodeDeltas (encodeDeltas (recs.map (·.fdid))) = recs.map (·.fdid) :=
+      delta_roundtrip _ (by intro x hx; obtain ⟨r, hr, rfl⟩ := List.mem_map.1 hx; exact hf r hr)
+    rw [v1pairs_read recs hk hh]
+    simp only [hdr, List.map_map, Function.comp_def]
+    rw [mkRecs_some recs (fun r hr => by rw [hn r hr]; rfl)]
+  | v2 =>
+    simp only [reduceCtorEq, ↓reduceIte] at hc
+    have hcm : c % M32 = c := Nat.mod_eq_of_lt (by unfold M32; exact hc)
+    have hn' : ∀ r ∈ recs, r.nameHash.isSome = hasNames c := fun r hr => by rw [hn r hr]; rfl
+    simp only [Block.write, Block.parse, mkBlock, hn0, ↓reduceIte, List.append_assoc, hcm,
+      rd32_le32 _ _ hlen, rd32_le32 _ _ hc, rd32_le32 _ _ hl, rd32_le32 0 _ (by omega), List.cons_append,
+      List.nil_append, hgt, false_or, Nat.or_zero, Nat.zero_shiftLeft]
+    exact separated_roundtrip l c recs rest hf hk hn' hh
+  | v3 =>
+    simp only [reduceCtorEq, ↓reduceIte] at hc
+    have hcm : c % M32 = c := Nat.mod_eq_of_lt (by unfold M32; exact hc)
+    have hn' : ∀ r ∈ recs, r.nameHash.isSome = hasNames c := fun r hr => by rw [hn r hr]; rfl
+    simp only [Block.write, Block.parse, mkBlock, hn0, ↓reduceIte, List.append_assoc, hcm,
+      rd32_le32 _ _ hlen, rd32_le32 _ _ hc, rd32_le32 _ _ hl, rd32_le32 0 _ (by omega), List.cons_append,
+      List.nil_append, hgt, false_or, Nat.or_zero, Nat.zero_shiftLeft]
+    exact separated_roundtrip l c recs rest hf hk hn' hh
+  | v4 =>
+    simp only [↓reduceIte] at hc
+    have hn' : ∀ r ∈ recs, r.nameHash.isSome = hasNames c := fun r hr => by rw [hn r hr]; rfl
+    have hlo : c % M32 < 4294967296 := Nat.mod_lt _ (by unfold M32; omega)
+    have h5 : ∀ (x : Bytes), takeN 5 (le32 0 ++ (0 :: x)) = some ([0, 0, 0, 0, 0], x) := by
+      intro x; simp [takeN, le32]
+    have hcv : c % M32 ||| (c / M32 % 256) <<< 32 = c := v4_content c hc
+    simp only [Block.write, Block.parse, mkBlock, hn0, ↓reduceIte, List.append_assoc,
+      rd32_le32 _ _ hlen, rd32_le32 _ _ hlo, rd32_le32 _ _ hl, List.cons_append,
+      List.nil_append, hgt, false_or, h5, hcv]
+    exact separated_roundtrip l c recs rest hf hk hn' hh
+
+
+theorem write_ne_nil (v : Version) (b : Block) : (Block.write v b).isEmpty = false := by
+  cases v <;> simp [Block.write, le32]
+
+/-- the block loop reads back every written block, in order -/
+theorem parseBlocks_roundtrip (v : Version) : ∀ (bls : List (Nat × Nat × List Rec)) (acc : List Block) (fuel : Nat),
+    (∀ b ∈ bls, GoodBlock v b.1 b.2.1 b.2.2) → bls.length < fuel →
+    parseBlocks v fuel (bls.flatMap fun b => Block.write v (mkBlock b.1 b.2.1 b.2.2)) acc
+      = some (acc ++ bls.map fun b => mkBlock b.1 b.2.1 b.2.2) := by
+  intro bls
+  induction bls with
+  | nil =>
+    intro acc fuel _ hf
+    cases fuel with
+    | zero => omega
+    | succ f => simp [parseBlocks]
+  | cons b t ih =>
+    intro acc fuel hg hf
+    cases fuel with
+    | zero => omega
+    | succ f =>
+      have hb := hg b (List.mem_cons_self ..)
+      simp only [List.flatMap_cons, parseBlocks]
+      have hne : (Block.write v (mkBlock b.1 b.2.1 b.2.2) ++
+          List.flatMap (fun b => Block.write v (mkBlock b.1 b.2.1 b.2.2)) t).isEmpty = false := by
+        have := write_ne_nil v (mkBlock b.1 b.2.1 b.2.2)
+        cases h : Block.write v (mkBlock b.1 b.2.1 b.2.2) with
+        | nil => rw [h] at this; cases this
+        | cons x xs => rfl
+      rw [hne]
+      simp only [Bool.false_eq_true, ↓reduceIte]
+      rw [block_roundtrip v _ _ _ _ hb]
+      simp only
+      have hpos : (mkBlock b.1 b.2.1 b.2.2).numRecords > 0 := hb.n_pos
+      rw [if_pos hpos, ih _ f (fun x hx => hg x (List.mem_cons_of_mem _ hx)) (by simp only [List.length_cons] at hf; omega)]
+      simp
+
+theorem le32_not_magic (n : Nat) (h : n ≤ 1000000) : ¬ (le32 n = mfst ∨ le32 n = tsfm) := by
+  unfold le32 mfst tsfm
+  simp only [List.cons.injEq, and_true]
+  omega
+
+theorem detect_v1 (v : Version) (b : Block) (rest : Bytes) (hv : v = .v1) (h : b.recs.length ≤ 1000000) :
+    detect (Block.write v b ++ rest) = some .v1 := by
+  subst hv
+  have e : Block.write .v1 b ++ rest = le32 b.recs.length ++ (le32 (b.content % M32) ++ (le32 b.locale ++
+      ((if b.recs.length = 0 then [] else (encodeDeltas (b.recs.map (·.fdid))).flatMap le32 ++
+        b.recs.flatMap fun r => r.ckey ++ le64 (r.nameHash.getD 0)) ++ rest))) := by
+    simp [Block.write]
+  rw [e]
+  unfold detect
+  have ht : takeN 4 (le32 b.recs.length ++ (le32 (b.content % M32) ++ (le32 b.locale ++
+      ((if b.recs.length = 0 then [] else (encodeDeltas (b.recs.map (·.fdid))).flatMap le32 ++
+        b.recs.flatMap fun r => r.ckey ++ le64 (r.nameHash.getD 0)) ++ rest)))) = some (le32 b.recs.length, _) :=
+    takeN_append (le32 b.recs.length) _
+  rw [ht]
+  simp only
+  rw [if_neg (le32_not_magic _ h)]
+
+
+def sortRecs (recs : List Rec) : List Rec := recs.mergeSort fun a b => a.fdid ≤ b.fdid
+
+/-- the blocks in the order and with the record order `RootBuilder::build` writes them -/
+def builtBlocks (blocks : List (Nat × Nat × List Rec)) : List (Nat × Nat × List Rec) :=
+  (blocks.mergeSort fun a b => a.1 < b.1 || (a.1 == b.1 && a.2.1 ≤ b.2.1)).map fun b => (b.1, b.2.1, sortRecs b.2.2)
+
+def totalOf (blocks : List (Nat × Nat × List Rec)) : Nat := (blocks.map fun b => b.2.2.length).sum
+def namedOf (blocks : List (Nat × Nat × List Rec)) : Nat :=
+  (blocks.map fun b => (b.2.2.filter (·.nameHash.isSome)).length).sum
+
+theorem named_le_total (blocks : List (Nat × Nat × List Rec)) : namedOf blocks ≤ totalOf blocks := by
+  unfold namedOf totalOf
+  induction blocks with
+  | nil => simp
+  | cons b t ih =>
+    simp only [List.map_cons, List.sum_cons]
+    have := List.length_filter_le (fun (r : Rec) => r.nameHash.isSome) b.2.2
+    omega
+
+theorem GoodBlock.sorted {v : Version} {l c : Nat} {recs : List Rec} (g : GoodBlock v l c recs) :
+    GoodBlock v l c (sortRecs recs) := by
+  have hp : (sortRecs recs).Perm recs := List.mergeSort_perm _ _
+  have hm : ∀ r, r ∈ sortRecs recs → r ∈ recs := fun r hr => hp.mem_iff.1 hr
+  have hl : (sortRecs recs).length = recs.length := hp.length_eq
+  exact ⟨hl ▸ g.n_pos, hl ▸ g.n_le, g.loc, g.content, fun r hr => g.fdid r (hm r hr), fun r hr => g.ckey r (hm r hr),
+    fun r hr => g.named r (hm r hr), fun r hr => g.hash r (hm r hr)⟩
+
+theorem builtBlocks_good (v : Version) (blocks : List (Nat × Nat × List Rec))
+    (hg : ∀ b ∈ blocks, GoodBlock v b.1 b.2.1 b.2.2) : ∀ b ∈ builtBlocks blocks, GoodBlock v b.1 b.2.1 b.2.2 := by
+  intro b hb
+  unfold builtBlocks at hb
+  obtain ⟨b0, hb0, rfl⟩ := List.mem_map.1 hb
+  exact (hg b0 ((List.mergeSort_perm _ _).mem_iff.1 hb0)).sorted
+
+theorem length_le_flatMap {α : Type} (f : α → Bytes) (l : List α) (h : ∀ a ∈ l, (f a).isEmpty = false) :
+    l.length ≤ (l.flatMap f).length := by
+  induction l with
+  | nil => simp
+  | cons a t ih =>
+    simp only [List.flatMap_cons, List.length_append, List.length_cons]
+    have := h a (List.mem_cons_self ..)
+    have h1 : 0 < (f a).length := by
+      cases hfa : f a with
+      | nil => rw [hfa] at this; cases this
+      | cons x xs => simp
+    have := ih (fun x hx => h x (List.mem_cons_of_mem _ hx))
+    omega
+
+/-- the byte string `RootBuilder::build` emits, in terms of `builtBlocks` -/
+theorem build_eq (v : Version) (blocks : List (Nat × Nat × List Rec)) (hne : blocks ≠ []) :
+    build v blocks = some ((match v with
+      | .v1 => []
+      | .v2 => (Header.classic true (totalOf blocks) (namedOf blocks)).write
+      | .v3 => (Header.ext true 20 3 (totalOf blocks) (namedOf blocks) 0).write
+      | .v4 => (Header.ext true 20 4 (totalOf blocks) (namedOf blocks) 0).write) ++
+      (builtBlocks blocks).flatMap fun b => Block.write v (mkBlock b.1 b.2.1 b.2.2)) := by
+  unfold build
+  have : blocks.isEmpty = false := by cases blocks with | nil => exact absurd rfl hne | cons _ _ => rfl
+  simp only [this, Bool.false_eq_true, ↓reduceIte, Option.some.injEq]
+  unfold builtBlocks
+  rw [List.flatMap_map]
+  congr 1
+
+
+/-- the header value `RootFile::parse` reports for a built file -/
+def headerOf (v : Version) (blocks : List (Nat × Nat × List Rec)) : Option Header :=
+  match v with
+  | .v1 => none
+  | .v2 => some (Header.classic true (totalOf blocks) (namedOf blocks))
+  | .v3 => some (Header.ext true 20 3 (totalOf blocks) (namedOf blocks) 0)
+  | .v4 => some (Header.ext true 20 4 (totalOf blocks) (namedOf blocks) 0)
+
+/-- **whole-file round trip.** -/
+theorem parse_build (v : Version) (blocks : List (Nat × Nat × List Rec)) (hne : blocks ≠ [])
+    (hg : ∀ b ∈ blocks, GoodBlock v b.1 b.2.1 b.2.2) (htot : totalOf blocks < 4294967296)
+    (hamb : v = .v2 → ¬ Ambiguous (totalOf blocks) (namedOf blocks)) :
+    ∃ bytes, build v blocks = some bytes ∧
+      parse bytes = some { version := v, header := headerOf v blocks,
+                           blocks := (builtBlocks blocks).map fun b => mkBlock b.1 b.2.1 b.2.2 } := by
+  have hnamed : namedOf blocks < 4294967296 := Nat.lt_of_le_of_lt (named_le_total blocks) htot
+  have hgb := builtBlocks_good v blocks hg
+  have hfuel : (builtBlocks blocks).length <
+      ((builtBlocks blocks).flatMap fun b => Block.write v (mkBlock b.1 b.2.1 b.2.2)).length + 1 :=
+    Nat.lt_succ_of_le (length_le_flatMap _ _ (fun a _ => write_ne_nil v _))
+  have hloop := parseBlocks_roundtrip v (builtBlocks blocks) [] _ hgb hfuel
+  simp only [List.nil_append] at hloop
+  refine ⟨_, build_eq v blocks hne, ?_⟩
+  cases v with
+  | v1 =>
+    simp only [List.nil_append]
+    -- the first block's record count is not a header magic
+    have hbne : builtBlocks blocks ≠ [] := by
+      unfold builtBlocks
+      intro h
+      have := congrArg List.length h
+      simp only [List.length_map, List.length_mergeSort, List.length_nil] at this
+      exact hne (List.length_eq_zero_iff.1 this)
+    cases hb : builtBlocks blocks with
+    | nil => exact absurd hb hbne
+    | cons b t =>
+      rw [hb] at hloop hgb
+      have hdet : detect (((b :: t).flatMap fun b => Block.write .v1 (mkBlock b.1 b.2.1 b.2.2))) = some .v1 := by
+        rw [List.flatMap_cons]
+        exact detect_v1 .v1 _ _ rfl (hgb b (List.mem_cons_self ..)).n_le
+      unfold parse
+      rw [hdet]
+      simp only
+      rw [hloop]
+      rfl
+  | v2 =>
+    obtain ⟨hread, hdet⟩ := classic_roundtrip true (totalOf blocks) (namedOf blocks)
+      ((builtBlocks blocks).flatMap fun b => Block.write .v2 (mkBlock b.1 b.2.1 b.2.2)) htot hnamed (hamb rfl)
+    unfold parse
+    simp only [hdet, hread, Header.version]
+    rw [hloop]
+    rfl
+  | v3 =>
+    obtain ⟨hread, hdet⟩ := ext_roundtrip true 3 (totalOf blocks) (namedOf blocks)
+      ((builtBlocks blocks).flatMap fun b => Block.write .v3 (mkBlock b.1 b.2.1 b.2.2)) (by omega) htot hnamed
+    unfold parse
+    simp only [hdet, hread, Header.version]
+    simp only [Nat.reduceEqDiff, or_self, ↓reduceIte]
+    rw [hloop]
+    rfl
+  | v4 =>
+    obtain ⟨hread, hdet⟩ := ext_roundtrip true 4 (totalOf blocks) (namedOf blocks)
+      ((builtBlocks blocks).flatMap fun b => Block.write .v4 (mkBlock b.1 b.2.1 b.2.2)) (by omega) htot hnamed
+    unfold parse
+    simp only [hdet, hread, Header.version]
+    simp only [Nat.reduceEqDiff, or_self, ↓reduceIte, ge_iff_le, Nat.le_refl]
+    rw [hloop]
+    rfl
+
+
+/-! ### lookups over the parsed blocks -/
+
+/-- common shape of `resolve_by_id` / `resolve_by_hash`: first (block, record) pair, in block and
+record order, whose record satisfies `q` and whose block matches the locale/content query -/
+def resolveGen (q : Rec → Bool) (bls : List Block) (locale content : Nat) : Option Bytes :=
+  (bls.flatMap fun b => (b.recs.filter q).map fun r => (b, r)).find?
+    (fun br => entryMatches br.1.locale br.1.content locale content) |>.map (·.2.ckey)
+
+theorem resolveById_eq (p : Parsed) (fdid l c : Nat) :
+    p.resolveById fdid l c = resolveGen (·.fdid == fdid) p.blocks l c := rfl
+theorem resolveByHash_eq (p : Parsed) (h l c : Nat) :
+    p.resolveByHash h l c = resolveGen (·.nameHash == some h) p.blocks l c := rfl
+
+theorem resolveGen_some (q : Rec → Bool) (bls : List Block) (l c : Nat) (ck : Bytes)
+    (h : resolveGen q bls l c = some ck) :
+    ∃ b ∈ bls, ∃ r ∈ b.recs, q r = true ∧ entryMatches b.locale b.content l c = true ∧ r.ckey = ck := by
+  unfold resolveGen at h
+  simp only [Option.map_eq_some_iff] at h
+  obtain ⟨⟨b, r⟩, hf, rfl⟩ := h
+  have hm := List.mem_of_find?_eq_some hf
+  have hp := List.find?_some hf
+  simp only [List.mem_flatMap, List.mem_map, List.mem_filter] at hm
+  obtain ⟨b', hb', r', ⟨hr', hq⟩, e⟩ := hm
+  cases e
+  exact ⟨b, hb', r, hr', hq, hp, rfl⟩
+
+theorem resolveGen_none (q : Rec → Bool) (bls : List Block) (l c : Nat) :
+    resolveGen q bls l c = none ↔
+      ∀ b ∈ bls, ∀ r ∈ b.recs, q r = true → entryMatches b.locale b.content l c = false := by
+  unfold resolveGen
+  simp only [Option.map_eq_none_iff, List.find?_eq_none, List.mem_flatMap, List.mem_map, List.mem_filter,
+    Bool.not_eq_true]
+  constructor
+  · intro h b hb r hr hq
+    exact h (b, r) ⟨b, hb, r, ⟨hr, hq⟩, rfl⟩
+  · rintro h ⟨b, r⟩ ⟨b', hb', r', ⟨hr', hq⟩, e⟩
+    cases e
+    exact h b hb' r hr' hq
+
+/-- the parsed blocks hold exactly the inserted records -/
+theorem mem_built (blocks : List (Nat × Nat × List Rec)) (b : Block) :
+    b ∈ (builtBlocks blocks).map (fun b => mkBlock b.1 b.2.1 b.2.2) ↔
+      ∃ b0 ∈ blocks, b = mkBlock b0.1 b0.2.1 (sortRecs b0.2.2) := by
+  unfold builtBlocks
+  simp only [List.mem_map, List.map_map]
+  constructor
+  · rintro ⟨b0, hb0, rfl⟩
+    exact ⟨b0, (List.mergeSort_perm _ _).mem_iff.1 hb0, rfl⟩
+  · rintro ⟨b0, hb0, rfl⟩
+    exact ⟨b0, (List.mergeSort_perm _ _).mem_iff.2 hb0, rfl⟩
+
+theorem mem_sortRecs (recs : List Rec) (r : Rec) : r ∈ sortRecs recs ↔ r ∈ recs :=
+  (List.mergeSort_perm _ _).mem_iff
+
+/-- lookups on the built-and-parsed block list in terms of the INSERTED records -/
+theorem resolveGen_built (q : Rec → Bool) (blocks : List (Nat × Nat × List Rec)) (l c : Nat) :
+    (∀ ck, resolveGen q ((builtBlocks blocks).map fun b => mkBlock b.1 b.2.1 b.2.2) l c = some ck →
+      ∃ b ∈ blocks, ∃ r ∈ b.2.2, q r = true ∧ entryMatches b.1 b.2.1 l c = true ∧ r.ckey = ck) ∧
+    (resolveGen q ((builtBlocks blocks).map fun b => mkBlock b.1 b.2.1 b.2.2) l c = none ↔
+      ∀ b ∈ blocks, ∀ r ∈ b.2.2, q r = true → entryMatches b.1 b.2.1 l c = false) := by
+  constructor
+  · intro ck h
+    obtain ⟨b, hb, r, hr, hq, hm, e⟩ := resolveGen_some q _ l c ck h
+    obtain ⟨b0, hb0, rfl⟩ := (mem_built blocks b).1 hb
+    exact ⟨b0, hb0, r, (mem_sortRecs _ r).1 hr, hq, hm, e⟩
+  · rw [resolveGen_none]
+    constructor
+    · intro h b0 hb0 r hr hq
+      exact h _ ((mem_built blocks _).2 ⟨b0, hb0, rfl⟩) r ((mem_sortRecs _ r).2 hr) hq
+    · intro h b hb r hr hq
+      obtain ⟨b0, hb0, rfl⟩ := (mem_built blocks b).1 hb
+      exact h b0 hb0 r ((mem_sortRecs _ r).1 hr) hq
+
+/-- "exactly the inserted value": if an inserted record satisfies `q` and matches the query, and every
+other inserted record that does so carries the same content key, that key is returned -/
+theorem resolveGen_built_exact (q : Rec → Bool) (blocks : List (Nat × Nat × List Rec)) (l c : Nat)
+    (b : Nat × Nat × List Rec) (hb : b ∈ blocks) (r : Rec) (hr : r ∈ b.2.2) (hq : q r = true)
+    (hm : entryMatches b.1 b.2.1 l c = true)
+    (hu : ∀ b' ∈ blocks, ∀ r' ∈ b'.2.2, q r' = true → entryMatches b'.1 b'.2.1 l c = true → r'.ckey = r.ckey) :
+    resolveGen q ((builtBlocks blocks).map fun b => mkBlock b.1 b.2.1 b.2.2) l c = some r.ckey := by
+  obtain ⟨h1, h2⟩ := resolveGen_built q blocks l c
+  cases h : resolveGen q ((builtBlocks blocks).map fun b => mkBlock b.1 b.2.1 b.2.2) l c with
+  | none =>
+    have := h2.1 h b hb r hr hq
+    rw [hm] at this; cases this
+  | some ck =>
+    obtain ⟨b', hb', r', hr', hq', hm', e⟩ := h1 ck h
+    rw [← e, hu b' hb' r' hr' hq' hm']
+
 
 end Cascette.Proofs.RootFile
